@@ -32,7 +32,11 @@ func (u *Uint32) CompareAndSwap_(s int, o any, old, new uint32) (ok bool) {
 	return
 }
 func (u *Uint32) Swap_(s int, o any, x uint32) (r uint32) {
-	vt.Do(s, "swap", u, o, nil, func() string { r = u.v; u.v = x; return strconv.FormatUint(uint64(r), 10) })
+	vt.Do(s, "swap", u, o, nil, func() string {
+		r = u.v
+		u.v = x
+		return strconv.FormatUint(uint64(x), 10) + " " + strconv.FormatUint(uint64(r), 10) // new old
+	})
 	return
 }
 func (u *Uint32) Load() uint32   { return u.Load_(0, nil) }
